@@ -107,8 +107,8 @@ def read_md(d, is_combined=False):
         out[f"{k} in"] = guard(lambda: k in d)
     out["items()"] = guard(lambda: list(d.items()))
     out["items(multi)"] = guard(lambda: list(d.items(multi=True)))
-    out["keys()"] = guard(lambda: sorted(d.keys()) if is_combined else list(d.keys()))
-    out["iter"] = guard(lambda: sorted(d) if is_combined else list(d))
+    out["keys()"] = guard(lambda: list(d.keys()))
+    out["iter"] = guard(lambda: list(d))
     out["values()"] = guard(lambda: list(d.values()))
     out["lists()"] = guard(lambda: [(k, list(v)) for k, v in d.lists()])
     out["listvalues()"] = guard(lambda: [list(v) for v in d.listvalues()])
@@ -146,7 +146,7 @@ def read_md_model(m: MDModel, subs=None):
         out[f"{k} in"] = k in m.d
     out["items()"] = m.items()
     out["items(multi)"] = m.items(True)
-    out["keys()"] = sorted(m.keys()) if subs is not None else m.keys()
+    out["keys()"] = m.keys()
     out["iter"] = out["keys()"]
     out["values()"] = m.values()
     out["lists()"] = m.lists()
@@ -208,7 +208,15 @@ class MultiDictHistory(Scenario):
                 if not self.compare(out, pre, name, read_md(real), read_md_model(model), after):
                     return False
             cm = combined([slots[0][1], slots[1][1]])
-            if not self.compare(out, pre, "CombinedMultiDict", read_md(comb, True), read_md_model(cm, [slots[0][1], slots[1][1]]), after):
+            got_c, want_c = read_md(comb, True), read_md_model(cm, [slots[0][1], slots[1][1]])
+            if any(not vs for sl in slots[:2] for vs in sl[1].d.values()):
+                # a wrapped dict holds a key without values: single-key reads, keys(), len() and membership are still
+                # defined, but in which order (and whether) such a key shows up in the value views is not
+                for view in ("items()", "items(multi)", "values()", "lists()", "listvalues()", "to_dict(flat=False)", "to_dict()"):
+                    got_c.pop(view, None)
+                    want_c.pop(view, None)
+                out.probe("combined_view_over_key_without_values")
+            if not self.compare(out, pre, "CombinedMultiDict", got_c, want_c, after):
                 return False
             # equality and hashing of the view must be consistent with each other
             # (fresh views: the long-lived one may have cached a hash before the wrapped dicts changed)
@@ -252,8 +260,6 @@ class MultiDictHistory(Scenario):
                     real.setlist(k, [v, v2])
                     model.setlist(k, [v, v2])
                 elif name == "setlist_empty":
-                    if under_view:
-                        continue  # a key without values under the combined view: the documented model is silent
                     real.setlist(k, [])
                     model.setlist(k, [])
                 elif name == "setdefault":
@@ -299,6 +305,24 @@ class MultiDictHistory(Scenario):
                     real.clear()
                     model.clear()
                 elif name in ("copy", "copy_copy", "deepcopy", "pickle"):
+                    if name in ("deepcopy", "pickle") and cls is ds.FileMultiDict:
+                        # the file variant holding an uploaded file: copies are independent and carry name, type and bytes
+                        import io
+
+                        fmd = ds.FileMultiDict()
+                        fmd.add_file(k, io.BytesIO(v.encode()), filename=f"{v}.txt", content_type="text/plain")
+                        fmd.add(k, v2)
+                        try:
+                            dup = copy.deepcopy(fmd) if name == "deepcopy" else pickle.loads(pickle.dumps(fmd))
+                            f0, f1 = dup.getlist(k)[0], fmd.getlist(k)[0]
+                            facts = (f0.filename, f0.content_type, f0.name, f0.stream.read(), dup.getlist(k)[1], f0 is not f1, f0.stream is not f1.stream, f1.stream.read())
+                        except Exception as e:  # noqa: BLE001
+                            out.violate(f"{pre}/FileMultiDict/{name}-with-file-raises/{type(e).__name__}", f"{type(e).__name__}: {str(e)[:100]}")
+                            break
+                        if facts != (f"{v}.txt", "text/plain", k, v.encode(), v2, True, True, v.encode()):
+                            out.violate(f"{pre}/FileMultiDict/{name}-with-file-differs", f"{facts!r}")
+                            break
+                        out.probe("file_variant_copied_with_file")
                     if name == "deepcopy" and any(not vs for vs in model.d.values()):
                         continue  # a key without values is outside the multimap model (deepcopy drops it, copy and pickle keep it)
                     if name == "copy":
@@ -329,6 +353,8 @@ class MultiDictHistory(Scenario):
                                 out.violate(f"{pre}/CombinedMultiDict/{what}-raises/{type(e).__name__}", f"{e}")
                                 break
                             cm = combined([slots[0][1], slots[1][1]])
+                            if any(not vs for sl in slots[:2] for vs in sl[1].d.values()):
+                                continue  # (what a copy does with a key that has no values is observation O3, not modelled)
                             if not self.compare(out, pre, "CombinedMultiDict", read_md(c2, True), read_md_model(cm, [slots[0][1], slots[1][1]]), f"{what}-of-view"):
                                 break
                 elif name == "freeze":
@@ -804,12 +830,24 @@ class HeaderSetHistory(Scenario):
                         continue
                     other = m.find(a)
                     if other >= 0 and other != idx % n:
-                        continue  # assigning a name that is already another member: the set model is silent
-                    s[idx] = a
-                    changed = m.l[idx] != a
-                    m.l[idx] = a
-                    if not changed:
-                        changed = None
+                        # assigning a name that is already another member: where it ends up is not specified, but the
+                        # result must still be a set - unique names, consistent length and membership, nothing else lost
+                        s[idx] = a
+                        got = list(s)
+                        want = [x for j, x in enumerate(m.l) if j not in (other, idx % n)]
+                        lows = [x.lower() for x in got]
+                        if len(set(lows)) != len(lows) or len(s) != len(got) or a not in got or sorted(x for x in got if x != a) != sorted(want) or any(x not in s for x in got):
+                            out.violate(f"{pre}/HeaderSet/not-a-set-after-assigning-an-existing-member", f"{m.l!r} with [{idx}] = {a!r} became {got!r} (len {len(s)})")
+                            break
+                        m.l[:] = got
+                        changed = True
+                        out.probe("existing_member_assigned_by_index")
+                    else:
+                        s[idx] = a
+                        changed = m.l[idx] != a
+                        m.l[idx] = a
+                        if not changed:
+                            changed = None
                 elif name == "delitem":
                     res = guard(lambda: s.__delitem__(idx))
                     if -n <= idx < n:
